@@ -3139,7 +3139,7 @@ def c01(fns, tier, env):
            site_delete(fns), kernel_resolve_timestamp(fns), site_compare_and_swap(fns), site_json_patch(fns),
            site_atomic_increment(fns), site_update_ttl(fns), site_resolve_expiry(fns), site_range_query(fns)]
     out += [site_insert_vacant(fns, "::insert_with_timestamp_and_ttl_internal"), site_insert_vacant(fns, "::insert_bytes_with_expiry"),
-            site_insert_vacant(fns, "::insert_if_absent", "src/core/store/atomic.rs", explicit_ts=False)]
+            site_insert_vacant(fns, "::insert_if_absent", "src/core/store/atomic.rs", explicit_ts=False), site_index_agreement(fns)]
     return finalize(out, env)
 
 
